@@ -193,3 +193,142 @@ class FSplit(CExec):
 
 
 ANALYSIS = {"F-SPLIT": FSplit}
+
+
+# ---------------------------------------------------------------------------------------------------
+TYPE = z3.Function("ob_type", INT, INT)
+
+
+class FSplitTree(CExec):
+    """`BTree_split(self, index, next)`: the interior-node split (loop-free).
+      returns 0  =>  0 < idx < len0; self->len == idx; next->len == next->size == len0 - idx;
+                     next->data[j] is old self->data[idx + j] (child AND separator) for every j < next->len;
+                     self->data and self->firstbucket untouched;
+                     next->firstbucket is the first leaf of next's first child: that child itself when it is a
+                     leaf, its own firstbucket (read after activating it) when it is a node of self's type;
+                     the change of self was registered
+      returns -1 =>  self->len, self->data, self->firstbucket are as they were (unless PER_CHANGED itself failed)
+    Obligations `F-SPLIT:BTree_split:<ok|fail>:<clause>`.  Trusted: as for bucket_split; activating the child
+    (`setstate`) may change any field OF THAT CHILD and nothing else (A4b); Py_TYPE is a function of the object."""
+    family = "F-SPLIT"
+
+    @classmethod
+    def applies(cls, tu, fn):
+        return fn == "BTree_split"
+
+    def on_entry(self, st):
+        ps = [p for p in self.fn.get("inner", []) if p["kind"] == "ParmVarDecl"]
+        if [p.get("name") for p in ps] != ["self", "index", "next"]:
+            raise Unsupported("BTree_split's parameters are not (self, index, next)")
+        self.S, self.IDX, self.NX = (st.vars[p["id"]] for p in ps)
+        self.blocks, self.changed = [], []
+        self.len0 = z3.Select(H0("len"), self.S)
+        self.D0 = z3.Select(H0("data"), self.S)
+        self.fb0 = z3.Select(H0("firstbucket"), self.S)
+        self.assumptions += [self.S != self.NX, self.S != 0, self.NX != 0, self.len0 >= 0, self.D0 != 0,
+                             z3.Select(H0("len"), self.NX) == 0, z3.Select(H0("data"), self.NX) == 0]
+        # A6b: a node is not its own child, and the fresh sibling is nobody's child yet
+        idx = z3.If(z3.Or(self.IDX < 0, self.IDX >= self.len0), self.len0 / 2, self.IDX)
+        c0 = z3.Select(H0("child"), self.D0 + idx)        # the one child the function touches
+        self.assumptions.append(z3.And(c0 != self.S, c0 != self.NX))
+        self.covers = [("F-SPLIT:BTree_split:cover:precondition", list(self.assumptions) + [self.len0 > 3])]
+        self.copied = False
+
+    count_of = FSplit.count_of
+
+    def on_call(self, name, args, n, st):
+        if name in ("BTree_Malloc", "malloc"):
+            cnt = self.count_of(n["inner"][1], st)
+            r = fresh("blk")
+            live = [(self.D0, self.len0)] + self.blocks
+            self.assumptions.append(z3.Or(r == 0, z3.And(r > 0, *[z3.Or(r + cnt <= b, b + c <= r) for b, c in live])))
+            self.blocks.append((r, cnt))
+            return r
+        if name == "memcpy":
+            cnt = self.count_of(n["inner"][3], st)
+            dst, src = args[0], args[1]
+            self.oblige(st, "F-SPLIT:BTree_split:memcpy[data]:source-in-bounds",
+                        z3.And(src >= self.D0, src + cnt <= self.D0 + self.len0, cnt >= 0))
+            self.oblige(st, "F-SPLIT:BTree_split:memcpy[data]:destination-in-bounds",
+                        z3.Or(*[z3.And(dst == b, cnt <= c, b != 0) for b, c in self.blocks]) if self.blocks else z3.BoolVal(False))
+            a = z3.Int("a!mc")
+            for field in ("key", "child"):          # a BTreeItem is copied whole: both of its fields
+                old = st.heap.get(field)
+                if old is None:
+                    old = H0(field)
+                st.heap[field] = z3.Lambda([a], z3.If(z3.And(dst <= a, a < dst + cnt), z3.Select(old, src + (a - dst)), z3.Select(old, a)))
+            self.copied = True
+            return dst
+        if name == "->changed":
+            r = fresh("changed_rc")
+            self.assumptions.append(z3.Or(r == 0, r == -1))
+            self.changed.append((st.guard, r))
+            return r
+        if name == "->setstate":
+            # loading the (ghost) child: any field of THAT object may change, nothing else
+            obj = args[0]
+            for f in list(st.heap):
+                if f in ("key", "child") or f.startswith("*"):
+                    continue
+                st.heap[f] = z3.Store(st.heap[f], obj, fresh("loaded_" + f.replace(".", "_")))
+            for f in ("firstbucket", "len", "data", "state"):
+                if f not in st.heap:
+                    st.heap[f] = z3.Store(H0(f), obj, fresh("loaded_" + f))
+            return fresh("setstate_rc")
+        if name == "Py_TYPE":
+            return TYPE(args[0])
+        if name in ("->accessed", "Py_INCREF", "_Py_INCREF", "Py_IncRef", "PyErr_SetString", "_Py_IsImmortal", "_Py_NewRef"):
+            return fresh("ret_" + name.strip("->"))
+        raise Unsupported("BTree_split calls %s" % name)
+
+    def on_return(self, st, v):
+        if v is None:
+            raise Unsupported("BTree_split returns no value")
+        S, NX, len0 = self.S, self.NX, self.len0
+        idx = z3.If(z3.Or(self.IDX < 0, self.IDX >= len0), len0 / 2, self.IDX)
+        j0 = fresh("j0")
+
+        def f(field, ptr):
+            return self.hread(st, field, ptr)
+        nd, nlen = f("data", NX), f("len", NX)
+        child0 = z3.Select(H0("child"), self.D0 + idx)
+        chg_ok = z3.Or(*[z3.And(g, r == 0) for g, r in self.changed]) if self.changed else z3.BoolVal(False)
+        chg_failed = z3.Or(*[z3.And(g, r != 0) for g, r in self.changed]) if self.changed else z3.BoolVal(False)
+        ok = {
+            "halves_non_empty": z3.And(0 < idx, idx < len0),
+            "left_length": f("len", S) == idx,
+            "right_length": z3.And(nlen == len0 - idx, f("size", NX) == len0 - idx),
+            "right_items": z3.Implies(z3.And(0 <= j0, j0 < nlen), z3.And(
+                nd != 0, f("child", nd + j0) == z3.Select(H0("child"), self.D0 + idx + j0),
+                f("key", nd + j0) == z3.Select(H0("key"), self.D0 + idx + j0))),
+            "left_items_untouched": z3.And(f("data", S) == self.D0, z3.Implies(z3.And(0 <= j0, j0 < len0), z3.And(
+                f("child", self.D0 + j0) == z3.Select(H0("child"), self.D0 + j0),
+                f("key", self.D0 + j0) == z3.Select(H0("key"), self.D0 + j0)))),
+            "left_first_bucket_kept": f("firstbucket", S) == self.fb0,
+            "right_first_bucket": f("firstbucket", NX) == z3.If(TYPE(S) == TYPE(child0), f("firstbucket", child0), child0),
+            "registered": chg_ok,
+        }
+        for nm, g in ok.items():
+            self.oblige(st, "F-SPLIT:BTree_split:ok:" + nm, z3.Implies(v == 0, g))
+        fail = {"self_unchanged": z3.Implies(z3.Not(chg_failed), z3.And(f("len", S) == len0, f("data", S) == self.D0,
+                                                                     f("firstbucket", S) == self.fb0))}
+        for nm, g in fail.items():
+            self.oblige(st, "F-SPLIT:BTree_split:fail:" + nm, z3.Implies(v == -1, g))
+        self.oblige(st, "F-SPLIT:BTree_split:result-domain", z3.Or(v == 0, v == -1))
+        if not self.copied:
+            raise Unsupported("BTree_split copied no items")
+
+
+class FSplitAny(CExec):
+    """Dispatch: one analysis id, two functions."""
+    family = "F-SPLIT"
+
+    @classmethod
+    def applies(cls, tu, fn):
+        return fn in ("bucket_split", "BTree_split")
+
+    def __new__(cls, tu, fname):
+        return (FSplit if fname == "bucket_split" else FSplitTree)(tu, fname)
+
+
+ANALYSIS = {"F-SPLIT": FSplitAny}
